@@ -651,6 +651,8 @@ def run(repo, rep):
     _log_rule(repo, rep, 'C06', 'C06.Z2')
     from ..api_pitfalls import truth_rule as _truth_rule
     _truth_rule(repo, rep, 'C06', 'C06.Z4')
+    from ..api_pitfalls import attribute_rule as _attribute_rule
+    _attribute_rule(repo, rep, 'C06', 'C06.Z5')
     dm = repo.module('dimsemessages')
     hier = exc_hierarchy(repo)
     k_pdv, lx = overhead(repo)
